@@ -74,3 +74,14 @@ Theorem C04_connection_no_crash : forall c raw tls, text_safe c ->
   existsb crashp (serve c raw tls) = false /\ ends_closed (serve c raw tls) = true.
 Proof. exact serve_no_crash. Qed.
 Print Assumptions C04_connection_no_crash.
+
+(* malformed, truncated, skipped and oversized messages never reach the parse callback: for every configuration
+   and client stream the texts handed to the parse function are, in order and each at most once, query texts of
+   complete Query / Parse messages within the limit that the client sent (the executable oracle
+   [oracle_parse_budget], evaluated on every implementation log of C03, C04 and C06, holds of the model) *)
+Require Import Wire.Case Spec.Oracles Spec.OracleFactsParse.
+Theorem C04_parser_sees_only_complete_messages : forall sc,
+  (forall v after rest, start (cfg_of_case sc) (sc_raw sc) = Some (v, after, rest) -> v <> version_ssl) ->
+  oracle_parse_budget sc (run_case sc) = true.
+Proof. exact oracle_parse_budget_model. Qed.
+Print Assumptions C04_parser_sees_only_complete_messages.
